@@ -67,6 +67,68 @@ MUTANTS = [
      "        _cMaximumDrop = self._config.cMaximumDrop\n",
      "        _cMaximumDrop = min(self._config.cMaximumDrop, -5.0)\n",
      "drop limits tighter than -5 ft silently ignored"),
+    # ---------------------------------------------------------------- C10
+    ("c10-skip-init-same-shot", "C10", TC,
+     """        self._init_trajectory(shot_info)
+        return self._integrate(shot_info, max_range >> Distance.Foot,""",
+     """        if getattr(self, '_last_shot', None) is not shot_info:
+            self._init_trajectory(shot_info)
+            self._last_shot = shot_info
+        return self._integrate(shot_info, max_range >> Distance.Foot,""",
+     "history-only: per-shot state not re-derived when the same Shot object is fired again (stale after a zeroing)"),
+    ("c10-class-level-drag-state", "C10", TC,
+     """        self._bc: float = shot_info.ammo.dm.BC
+        self._table_data: List[DragDataPoint] = shot_info.ammo.dm.drag_table
+        self._curve: List[CurvePoint] = calculate_curve(self._table_data)""",
+     """        TrajectoryCalc._bc = shot_info.ammo.dm.BC
+        self._table_data: List[DragDataPoint] = shot_info.ammo.dm.drag_table
+        TrajectoryCalc._curve = calculate_curve(self._table_data)""",
+     "schedule-only: per-shot drag state written to the class, shared by all calculators (sequential use is correct)"),
+    ("c10-shared-mach-list", "C10", TC,
+     """def _get_only_mach_data(data: List[DragDataPoint]) -> List[float]:
+    result = []
+""",
+     """_MACH_SCRATCH: List[float] = []
+
+
+def _get_only_mach_data(data: List[DragDataPoint]) -> List[float]:
+    result = _MACH_SCRATCH
+    result.clear()
+""",
+     "schedule-only: Mach list built in a module-level scratch list reused by every calculator"),
+    ("c10-winds-sorted-in-place", "C10", CO,
+     "        return tuple(sorted(self._winds, key=lambda wind: wind.until_distance.raw_value))",
+     "        self._winds.sort(key=lambda wind: wind.until_distance.raw_value)\n        return tuple(self._winds)",
+     "firing reorders the caller's wind list in place"),
+    ("c10-coarse-step-after-failure", "C10", [(TC,
+     """        preferred_step = self._config.max_calc_step_size_feet
+        if step == 0:""",
+     """        preferred_step = self._config.max_calc_step_size_feet
+        if getattr(self, '_recover', False):
+            self._recover = False
+            preferred_step = preferred_step * 2
+        if step == 0:"""), (TC,
+     "                raise RangeError(reason, ranges)\n",
+     "                self._recover = True\n                raise RangeError(reason, ranges)\n")], None, None,
+     "history-only (two cooperating sites): a sticky flag set on the range-error path coarsens the next computation"),
+    ("c10-zero-resets-relative-angle", "C10", IF,
+     "        shot.weapon.zero_elevation = self.barrel_elevation_for_target(shot, zero_distance)\n",
+     "        shot.weapon.zero_elevation = self.barrel_elevation_for_target(shot, zero_distance)\n"
+     "        shot.relative_angle = Angular.Radian(0)\n",
+     "zeroing also rewrites the shot's relative angle"),
+    ("c10-atmo-torn-memo", "C10", CO,
+     """        # Within 30 ft of initial altitude use initial values to save compute
+        if math.fabs(self._a0 - altitude) < 30:""",
+     """        if getattr(self, '_memo_alt', None) == altitude:
+            return self._memo_val
+        self._memo_alt = altitude
+        self._memo_val = self._get_dfm(altitude)
+        return self._memo_val
+
+    def _get_dfm(self, altitude: float) -> Tuple[float, float]:
+        # Within 30 ft of initial altitude use initial values to save compute
+        if math.fabs(self._a0 - altitude) < 30:""",
+     "last-lookup memo kept in two fields of the (shared) atmosphere object"),
 ]
 
 
